@@ -55,7 +55,7 @@ impl Serialize for MemoryLocation {
             MemoryLocation::StackOffset(i) => serializer.serialize_str(&format!(
                 "so{}{}",
                 if i < &0 { "-" } else { "+" },
-                i.abs()
+                i.unsigned_abs()
             )),
         }
     }
@@ -129,7 +129,7 @@ impl std::fmt::Display for MemoryLocation {
             }
             MemoryLocation::StackOffset(offset) => {
                 if offset < &0 {
-                    write!(f, "sp_i - {}", offset.abs())
+                    write!(f, "sp_i - {}", offset.unsigned_abs())
                 } else {
                     write!(f, "sp_i + {offset}")
                 }
